@@ -19,6 +19,8 @@ pub enum Ev {
     Flush { trx: usize },
     Commit { trx: usize },
     Action(ActScript),
+    /// arm the backend so that its next head-set commit fails with an I/O error (fault replicas only)
+    FailNextCommit,
 }
 
 /// Action description in terms of the universe: published commands become new nodes.
@@ -38,6 +40,7 @@ pub fn describe_events(evs: &[Ev]) -> String {
             }
             Ev::Flush { trx } => s.push_str(&format!("flush{trx} ")),
             Ev::Commit { trx } => s.push_str(&format!("commit{trx} ")),
+            Ev::FailNextCommit => s.push_str("FAULT(next backend commit) "),
             Ev::Action(a) => {
                 s.push_str(&format!(
                     "action(pub={}{}) ",
@@ -127,6 +130,9 @@ pub struct Sim<SP: StorageProvider> {
     pub dead: bool,
     /// drop a transaction whose `add_commands` failed instead of continuing to use it
     pub abandon_on_add_error: bool,
+    /// a backend commit fault is armed: the next commit / action must fail and change nothing
+    fault_armed: bool,
+    pub faults_fired: u64,
 }
 
 impl<SP: StorageProvider> Sim<SP> {
@@ -152,6 +158,8 @@ impl<SP: StorageProvider> Sim<SP> {
             collapses: 0,
             dead: false,
             abandon_on_add_error: false,
+            fault_armed: false,
+            faults_fired: 0,
         }
     }
 
@@ -264,6 +272,12 @@ impl<SP: StorageProvider> Sim<SP> {
         }
         self.transitions += 1;
         match ev {
+            Ev::FailNextCommit => {
+                if let Some(f) = self.replica.commit_fault() {
+                    f.arm(1);
+                    self.fault_armed = true;
+                }
+            }
             Ev::Add { trx, nodes } => {
                 let t = *trx;
                 self.slot(t);
@@ -337,6 +351,11 @@ impl<SP: StorageProvider> Sim<SP> {
                         let fr = self.dag.frontier(total);
                         if fr.len() > 1 && self.has_parallel_finalize(&fr) {
                             Expect::ParallelFinalize
+                        } else if self.fault_armed {
+                            // the backend refuses the head-set commit: nothing may change
+                            self.fault_armed = false;
+                            self.faults_fired += 1;
+                            Expect::Refused
                         } else {
                             if fr.len() > 1 {
                                 let eff = self.braid_effects(&fr);
@@ -356,7 +375,12 @@ impl<SP: StorageProvider> Sim<SP> {
                     Err(e) => classify(e),
                 };
                 self.outcome_classes.push(format!("commit:{got}"));
-                if self.oracles.outcomes && got != expect_name(&expect) {
+                if expect == Expect::Refused {
+                    // effects a braid emitted before the failed head-set commit are not specified: resynchronise
+                    self.expected_effects = self.replica.sink.committed_effects();
+                }
+                let matches = if expect == Expect::Refused { got != "Ok" } else { got == expect_name(&expect) };
+                if self.oracles.outcomes && !matches {
                     self.viol("commit-outcome", format!("commit{t}: runtime returned {got}, statement model expects {}", expect_name(&expect)));
                 }
                 self.check_state(&format!("commit{t}"), res.is_err(), before);
@@ -449,6 +473,12 @@ impl<SP: StorageProvider> Sim<SP> {
                         }
                     }
                 }
+                if expect == Expect::Ok && self.fault_armed {
+                    // everything evaluates, then the backend refuses the head-set commit
+                    self.fault_armed = false;
+                    self.faults_fired += 1;
+                    expect = Expect::Refused;
+                }
                 // the real script publishes everything it is told to (the policy decides where it fails);
                 // ids follow the model's numbering: merges first, then the published chain
                 let real = ActionScript {
@@ -479,7 +509,7 @@ impl<SP: StorageProvider> Sim<SP> {
                 if script.publish.is_empty() && expect == Expect::Ok && res.is_err() {
                     expect = Expect::Internal;
                     self.outcome_classes.push("action:empty-refused".into());
-                } else if self.oracles.outcomes && got != expect_name(&expect) {
+                } else if self.oracles.outcomes && !(if expect == Expect::Refused { got != "Ok" } else { got == expect_name(&expect) }) {
                     self.viol("action-outcome", format!("action: runtime returned {got}, statement model expects {}", expect_name(&expect)));
                 }
                 // what the action saw
